@@ -170,8 +170,9 @@ def run(tier):
     p = dict(nmax=7, kmax=4, ks_union=[1, 2, 3, 4], depth3=False, lens={2: 2, 3: 1}, lens_any={2: 1, 3: 1}, batches=[1, 2], k2s=[2, 3], offmax=2)
     timeout = 150
   else:
-    p = dict(nmax=16, kmax=6, ks_union=[1, 2, 3, 4, 5, 6, 7, 8], depth3=True, lens={1: 4, 2: 3, 3: 2, 4: 2}, lens_any={1: 4, 2: 2, 3: 2, 4: 1}, batches=[1, 2, 3], k2s=[1, 2, 3, 4], offmax=3)
-    timeout = 900
+    # sized so that the slowest obligation needs < 50% of the timeout on the unchanged tree (nmax=16 / k2s up to 4 / lens[4]=2 did not finish)
+    p = dict(nmax=12, kmax=6, ks_union=[1, 2, 3, 4, 5, 6, 7, 8], depth3=True, lens={1: 4, 2: 3, 3: 2, 4: 1}, lens_any={1: 4, 2: 2, 3: 1, 4: 1}, batches=[1, 2, 3], k2s=[1, 2, 3], offmax=2)
+    timeout = 1800
   rep.bounds(**p, per_condition_timeout_s=timeout,
              note='n = source length, k = shard count (k>n included), nesting depth 2 (3 in thorough), '
                   'lens = {number of sub-sequences: max length of each} (empty allowed), read-ahead batch sizes as listed, indices/slice bounds incl. negative and out of range')
